@@ -35,7 +35,8 @@ def check(rep, tier, seed):
     specs, metas = [], []
     k = 0
     ncfg = 5 if quick else len(CONFIGS)
-    cfgs = [CONFIGS[(seed * 7 + i * 3) % len(CONFIGS)] for i in range(ncfg)] if quick else CONFIGS
+    # the six-channel (5.1) set-up is the only one with a multi-step coupling chain: always present
+    cfgs = ([(6, 44100)] + [c for c in [CONFIGS[(seed * 7 + i * 3) % len(CONFIGS)] for i in range(ncfg - 1)] if c != (6, 44100)]) if quick else CONFIGS
     for ch, rate in cfgs:
         for sig in range(5):
             for q in (QUALS if (sig in (0, 1, 4)) else [rng.choice(QUALS)]):
